@@ -45,6 +45,8 @@ PLAN = {
                 soft=["MISMATCH twd", "MISMATCH tpath", "MISMATCH marks"]),
 }
 
+EXTRA_CONC = {"C03": "absorb,buffers", "C10": "pending,readerr"}
+
 PROPS_FILES = {
     "C01": ["props/C01.v"], "C02": ["props/C02.v"], "C03": ["props/C03.v"], "C04": ["props/C04.v"], "C08": ["props/C08.v"],
     "C09": ["props/C09.v"], "C10": ["props/C10.v"], "C11": ["props/C11.v"], "C12": ["props/C12.v"], "C19": ["props/C19.v"],
@@ -162,8 +164,14 @@ def run_ino_property(run, quick_n=96, thorough_n=2400, steps=45):
     with Lock():
         ok_static, log_static = coq_static()
         ok, log = (False, "")
-        if ok_static:
+        okx, logx = True, ""
+        if pid == "C19":      # C19 also uses a fact generated from the source (register before send)
+            okx, logx = run_xlate("cfg,consts")
+            files = ["obl/OblCfg.v"] + files
+        if ok_static and okx:
             ok, log = coq_make([files[-1] + "o"])
+        elif not okx:
+            log = logx
         total, done, failed = proof_obligations(files, log, ok)
         pa_closed, pa_axioms = 0, []
         if ok:
@@ -227,6 +235,29 @@ def run_ino_property(run, quick_n=96, thorough_n=2400, steps=45):
                 rep["correspondence"] = "model and implementation differ in an internal observable; no property-level failure found"
                 run.violation(key_for(kind), "%s: %s" % (kind, lines[0] if lines else ""), rep, nofail=True)
                 break
+    # protocol-level part of this property (buffered order for C03, life after overflow / read errors for C10): scenarios
+    # of the conc harness on the real Watcher
+    conc_scens = 0
+    if pid in EXTRA_CONC:
+        import conc
+        os.makedirs(conc.WD, exist_ok=True)
+        with Lock():
+            okc, logc, cbin = build_harness("conc")
+        if okc:
+            rcc, outc = conc.run_conc(cbin, EXTRA_CONC[pid], run.seed, run.tier, pid)
+            cf, cs, _, cpanic = conc.parse(outc)
+            conc_scens = len(cs)
+            seen = set()
+            for f in cf:
+                if f["prop"] == pid and f["clause"] not in seen:
+                    seen.add(f["clause"])
+                    idx = outc.find(f["line"])
+                    sc = [l for l in outc[:idx].split("\n") if l.startswith("SCEN ")]
+                    run.violation(f["clause"], "%s: %s %s" % (pid, f["clause"], f["detail"]),
+                                  {"clause": f["clause"], "detail": f["detail"], "scenario": sc[-1] if sc else "", "seed": run.seed,
+                                   "how": "build/bin/conc -seed %d -what %s" % (run.seed, EXTRA_CONC[pid])})
+            if cpanic:
+                run.violation("crash", "the library crashed during a protocol scenario: " + cpanic, {"output_tail": outc[-2000:]})
     foreign = sorted(k for k in allkinds if k not in plan["hard"] and k not in plan["soft"])
     nh = stats.get("histories_plain", 0) + stats.get("histories_recursive", 0)
     nontrivial = nh  # every history ends with a forced drain+list and contains API and fs activity
@@ -246,6 +277,7 @@ def run_ino_property(run, quick_n=96, thorough_n=2400, steps=45):
         "distribution": stats,
         "divergences_owned": {k: len(v) for k, v in allkinds.items() if k in plan["hard"] or k in plan["soft"]},
         "divergences_owned_by_other_properties": foreign,
+        "protocol_scenarios": conc_scens,
         "samples": samples, "notes": notes,
     })
     run.assumptions += ["the Linux kernel's inotify behaves per the contract of System.v (validated, not proved)",
